@@ -155,6 +155,26 @@ class PrinterExtractor:
                 if isinstance(f, ast.Attribute):
                     if f.attr == "encode" and not e.args:
                         return (("enc", U(f.value)),)
+                    if f.attr == "join" and modconst(f.value) is not None and len(e.args) == 1 and \
+                            (isinstance(e.args[0], (ast.Tuple, ast.List)) or (isinstance(e.args[0], ast.Name) and isinstance(env.get(e.args[0].id), list))):
+                        sep = modconst(f.value)
+                        a0 = e.args[0]
+                        items = [("t", sval(x)) for x in a0.elts] if isinstance(a0, (ast.Tuple, ast.List)) else list(env[a0.id])
+                        if any(isinstance(x, ast.Starred) for x in getattr(a0, "elts", [])):
+                            unsupported("starred join", e)
+                        out = ()
+                        for k_, it in enumerate(items):
+                            if it[0] == "t":
+                                out = cat(out, it[1]) if k_ == 0 else cat(cat(out, lit(sep)), it[1])
+                            else:       # ("each", body, fld): one element per member of the list field
+                                _, body_, fld_ = it
+                                if k_ == 0:
+                                    if len(items) != 1:
+                                        unsupported("join over a list that starts with a loop", e)
+                                    out = (("joinx", sep, body_, fld_),)
+                                else:
+                                    out = cat(out, (("each", cat(lit(sep), body_), fld_),))
+                        return out
                     if f.attr == "join" and modconst(f.value) is not None and len(e.args) == 1:
                         sep = modconst(f.value)
                         g = e.args[0]
@@ -262,6 +282,14 @@ class PrinterExtractor:
             for s in stmts:
                 if is_noop_stmt(s) or isinstance(s, ast.Assert):
                     continue
+                if isinstance(s, ast.Assign) and len(s.targets) == 1 and isinstance(s.targets[0], ast.Name) and isinstance(s.value, (ast.List, ast.Tuple)) \
+                        and not any(isinstance(x, ast.Starred) for x in s.value.elts):
+                    env[s.targets[0].id] = [("t", sval(x)) for x in s.value.elts]      # a list of text parts (joined later)
+                    continue
+                if isinstance(s, ast.Expr) and isinstance(s.value, ast.Call) and isinstance(s.value.func, ast.Attribute) and s.value.func.attr == "append" \
+                        and isinstance(s.value.func.value, ast.Name) and isinstance(env.get(s.value.func.value.id), list) and len(s.value.args) == 1:
+                    env[s.value.func.value.id] = env[s.value.func.value.id] + [("t", sval(s.value.args[0]))]
+                    continue
                 if isinstance(s, ast.Assign) and len(s.targets) == 1 and isinstance(s.targets[0], ast.Name):
                     env[s.targets[0].id] = sval(s.value)
                     continue
@@ -275,6 +303,14 @@ class PrinterExtractor:
                     continue
                 if isinstance(s, ast.For) and isinstance(s.iter, ast.Attribute) and isinstance(s.target, ast.Name):
                     fld = U(s.iter)
+                    def _is_part_append(x):
+                        return isinstance(x, ast.Expr) and isinstance(x.value, ast.Call) and isinstance(x.value.func, ast.Attribute) and x.value.func.attr == "append" \
+                            and isinstance(x.value.func.value, ast.Name) and isinstance(env.get(x.value.func.value.id), list) and len(x.value.args) == 1
+                    if s.body and all(_is_part_append(x) for x in s.body) and len({x.value.func.value.id for x in s.body}) == 1 and len(s.body) == 1:
+                        if ask(("nonempty", fld)):
+                            ln = s.body[0].value.func.value.id
+                            env[ln] = env[ln] + [("each", elem_term(s.body[0].value.args[0], s.target.id), fld)]
+                        continue
                     if ask(("nonempty", fld)):
                         var = s.target.id
                         accs = {x.target.id for x in s.body if isinstance(x, ast.AugAssign) and isinstance(x.target, ast.Name)}
